@@ -2,6 +2,7 @@ import Gengo.Basic.Proto
 import Gengo.Driver.Tags
 import Gengo.Driver.JsonTag
 import Gengo.Driver.Tracker
+import Gengo.Driver.Namer
 open Gengo Gengo.Proto
 
 /-- state of the stateful components (one history at a time per component) -/
@@ -13,6 +14,7 @@ def dispatch (s : DState) (f : List Str) : DState × Str :=
   | c :: rest =>
     if c = str "tags" then (s, Driver.Tags.handle rest)
     else if c = str "json" then (s, Driver.JsonTag.handle rest)
+    else if c = str "nm" then (s, Driver.Namer.handle rest)
     else if c = str "trk" then
       let (t, o) := Driver.Tracker.handle s.trk rest
       ({ s with trk := t }, o)
